@@ -33,9 +33,10 @@ partial def decAct (j : Json) : Except String Act := do
   | "attach" => pure .attach
   | "raise" =>
     let sub := match fieldOpt j "sub" with | .bool b => b | _ => false
-    -- "base": the object is a BaseException that is no Exception (SystemExit, GeneratorExit, a project's own);
+    -- "base": the object is a BaseException that is no Exception: SystemExit, or another one (GeneratorExit, a project's own);
     -- "args" (what an Abort* was constructed with) only shapes the message text, which is not modelled
     match fieldOpt j "base" with
+    | .str "SystemExit" => pure (.raise .sysExit)
     | .str _ => pure (.raise .baseExc)
     | _ => pure (.raise (← decClass (← (← field j "kind").getStr?) sub).kind)
   | "gate" => pure .gate
